@@ -60,6 +60,10 @@ CLAIM = (
     "the same numbers in masked arrays, matrices, lists, torch tensors and unusual layouts give the result of the plain ndarray with masks preserved. "
     "A size x pedestal family (element counts just below / at / just above 2**16, 2**20 and, thorough, 2**22; int32/int64/float64 data of small spread on "
     "pedestals up to 2**40 / 1e9) repeats the clauses on whole large arrays, so a behaviour that switches on the array size or loses the offset is seen. "
+    "A data-CONTENT family (arrays holding exactly two distinct values for the pairs 0/1, 0/2, -1/1, 0/255, 1/2, 0/2**-100, alternating and as one pixel in a constant image; "
+    "0/1 data with one NaN, inf or further value; integer values in float dtypes; sorted, reversed, repeated and constant rows; every int/float dtype of the lattice that holds the values) "
+    "is crossed with every interval and stretch configuration of the lattice plus limits placed ON data values (vmin = minimum, vmax = maximum, centre +- half range = data range), "
+    "both limit modes, every preset and resolve form and show_2d, so a shortcut that keys on what the numbers are and overrides the configured interval is seen; bool-dtype arrays are executed and counted only. "
     "Exploration is the right level: the property quantifies over configurations and data kinds, not over histories."
 )
 NOTE = (
@@ -71,7 +75,8 @@ RULE = (
     "Cartesian product of the data, mode, interval and stretch alphabets (simplest first) plus all presets; one evaluation = one "
     "CustomNormalization built and called on one array. A point is non-trivial when its defined limits satisfy lower < upper "
     "and the finite entries land on at least two distinct output values; distinct outcomes = distinct (output, mask) records. "
-    "History part: every sequence of 2/3 arrays from a 5-member alphabet per configuration on one object; non-trivial when the sequence holds two different arrays."
+    "History part: every sequence of 2/3 arrays from a 5-member alphabet per configuration on one object; non-trivial when the sequence holds two different arrays. "
+    "Content family: Cartesian product content member x dtype x mode x (lattice intervals + limits on data values) x stretch, judged and counted like lattice points; bool-dtype points are never non-trivial."
 )
 
 # ----------------------------------------------------------------------------- tolerances
@@ -153,6 +158,8 @@ def data_descriptors(quick):
 
 # ----------------------------------------------------------------------------- data builder
 def build_data(d, seed):
+    if d.get("family") == "content":
+        return build_content(d)
     dt = np.dtype(d["dtype"])
     n = int(np.prod(d["shape"]))
     isf = dt.kind == "f"
@@ -229,6 +236,9 @@ def _position(name, m, M, arg):
         "zero": Fraction(0),
         "half": S / 2,
         "double": 2 * S,
+        "min": m,  # content family: configured limits that coincide with data values
+        "max": M,
+        "centre": m + S / 2,
     }[name]
     if arg == "int":
         return int(math.floor(p))
@@ -494,6 +504,8 @@ def judge(t, a, d, mode, spec_name, spec, stretch, kw, fin):
         }
         if spec_name != cls["interval"]:
             cls["via"] = spec_name  # "preset:<name>" / "form:<label>"
+        if d.get("family") == "content":
+            cls["content"] = d["content"].split("/")[0]
         shown = {k: v for k, v in kw.items() if v is not None}
         more = f" [also: {', '.join(r for r, _ in probs[1:])}]" if len(probs) > 1 else ""
         t.fail(cls, case, f"{a.dtype} {d['content']}/{d['decor']}{tuple(d['shape'])} mode={mode} {shown}: {probs[0][1]}{more}")
@@ -530,6 +542,166 @@ def lattice_item(item, seed=0, quick=True):
         obs = observe(a, mode, kw)
         if "exc" not in obs:
             t.sample({"dtype": d["dtype"], "input": a.ravel().tolist(), "kwargs": kw, "output": np.round(obs["data"], 4).tolist(), "mask": obs["mask"].tolist()}, cap=1)
+    return t
+
+
+# ----------------------------------------------------------------------------- data CONTENT family
+# The lattice's contents (two far-apart values, ramps, duplicates, noise) never hit a branch that keys on WHAT the numbers are. This
+# family enumerates the special contents a data-dependent shortcut would test for — arrays holding exactly two distinct values for a
+# list of value pairs (0/1 first: masks and sparse counting frames stored as int or float), 0/1 data with one NaN / inf / further
+# value (which must not matter for anything but that entry), a constant image except one pixel, integer values in float dtypes,
+# sorted / reversed / repeated / constant rows — in every dtype of the lattice's dtype alphabet that holds the values exactly, crossed
+# with EVERY interval and stretch configuration of the lattice plus configurations whose limits coincide with data values (vmin = data
+# minimum, vmax = data maximum, centre +- half range = data range), with and without data= at construction, every preset, resolve form
+# and (a sub-alphabet) the show_2d path. Oracle: the lattice's own (measure()); same tolerances — worst deviations observed on HEAD (the family has no
+# seeded member): range 0, monotone 0, limits 5.7e-16, limit->0/1 0 (float32 data 1.8e-7), affine 1.1e-16 (float32 data 7.9e-8); the effect looked
+# for (configured limits replaced by other ones) moves the limits' images by >= 0.06.
+# bool-dtype arrays: HEAD gives them the limits (0, 1) whatever the configuration says when data= is given; the property's quantifier
+# speaks of int/float dtypes, so bool points are executed and COUNTED, not judged.
+CONTENT_PAIRS = {"0|1": (0, 1), "0|2": (0, 2), "-1|1": (-1, 1), "0|255": (0, 255), "1|2": (1, 2), "0|2**-100": (0, 2.0 ** -100)}
+CONTENT_PATTERNS = ["alternating", "single_high", "single_low"]
+CONTENT_SPARSE_QUICK = ["0|1", "1|2"]  # quick: the one-pixel patterns for these pairs only (thorough: every pair)
+CONTENT_OTHERS = ["01+nan", "01+inf", "01+2", "01+half", "integers", "sorted", "reversed", "equal_rows", "constant_rows"]
+CONTENT_DTYPES = DTYPES + ["bool"]
+CONTENT_DISPLAY = ["0|1/alternating", "0|1/single_high", "0|255/alternating", "01+nan", "sorted"]
+
+
+def content_values(content, n, shape):
+    """Python numbers (ints wherever the value is an integer) of one content member, flat, or None if the shape cannot show it."""
+    name, _, pattern = content.partition("/")
+    if name in CONTENT_PAIRS:
+        lo, hi = CONTENT_PAIRS[name]
+        if pattern == "alternating":
+            return [lo if i % 2 == 0 else hi for i in range(n)]
+        if pattern == "single_high":
+            return [hi if i == n // 2 else lo for i in range(n)]
+        if pattern == "single_low":
+            return [lo if i == 1 else hi for i in range(n)]
+        raise ValueError(content)
+    base01 = [i % 2 for i in range(n)]
+    if name == "01+nan":
+        return [float("nan") if i == 1 else v for i, v in enumerate(base01)]
+    if name == "01+inf":
+        return [float("inf") if i == 2 else v for i, v in enumerate(base01)]
+    if name == "01+2":
+        return base01[:-1] + [2]
+    if name == "01+half":
+        return base01[:-1] + [0.5]
+    if name == "integers":
+        return [3, 1, 4, 1, 5, 9, 2, 6, 5, 3, 5, 8][:n]
+    if name == "sorted":
+        return list(range(n))
+    if name == "reversed":
+        return list(range(n - 1, -1, -1))
+    cols = shape[-1] if len(shape) > 1 else 4
+    if name == "equal_rows":  # every row is the same ramp
+        return [1 + (i % cols) for i in range(n)]
+    if name == "constant_rows":  # every row is one value
+        return [i // cols if len(shape) > 1 else (i * 3) // n for i in range(n)]
+    raise ValueError(content)
+
+
+def build_content(d):
+    """The array of a content descriptor; Broken if the dtype cannot hold the values exactly (descriptors are filtered beforehand)."""
+    shape = tuple(d["shape"])
+    n = int(np.prod(shape))
+    vals = content_values(d["content"], n, shape)
+    dt = np.dtype(d["dtype"])
+    a = content_array(vals, dt)
+    if a is None:
+        raise Broken(f"content member {d} is not representable")
+    return a.reshape(shape)
+
+
+def content_array(vals, dt):
+    special = [v for v in vals if isinstance(v, float) and not math.isfinite(v)]
+    if dt.kind != "f" and (special or any(isinstance(v, float) for v in vals)):
+        return None
+    if dt.kind == "b" and not set(vals) <= {0, 1}:
+        return None
+    if dt.kind in "iu":
+        info = np.iinfo(dt)
+        if min(vals) < info.min or max(vals) > info.max:
+            return None
+    with np.errstate(all="ignore"):
+        a = np.array(vals, dtype=dt)
+    for v, w in zip(vals, a.tolist()):
+        if isinstance(v, float) and math.isnan(v):
+            if not math.isnan(w):
+                return None
+        elif float(v) != float(w) or (dt.kind == "f" and math.isfinite(v) and Fraction(v) != Fraction(float(w))):
+            return None
+    return a
+
+
+def content_descriptors(quick):
+    names = []
+    for pair in CONTENT_PAIRS:
+        for pattern in CONTENT_PATTERNS:
+            if quick and pattern != "alternating" and pair not in CONTENT_SPARSE_QUICK:
+                continue
+            names.append(f"{pair}/{pattern}")
+    names += CONTENT_OTHERS
+    out = []
+    for dtname in CONTENT_DTYPES:
+        for content in names:
+            for shape in ([SHAPES[1]] if quick else SHAPES):
+                n = int(np.prod(shape))
+                vals = content_values(content, n, shape)
+                a = content_array(vals, np.dtype(dtname))
+                if a is None:
+                    continue
+                fin = [v for v in vals if math.isfinite(v)]
+                if len(set(fin)) < 2:
+                    raise Broken(f"content member {content}{shape} has fewer than two distinct finite values")
+                out.append({"family": "content", "dtype": dtname, "content": content, "decor": "none", "shape": list(shape)})
+    return out
+
+
+def content_extra_specs():
+    """Interval configurations whose limits coincide with values of the data (positions relative to the finite range [m, M])."""
+    out = []
+    for arg in ("float", "int"):
+        for vmin, vmax in [("min", "max"), ("min", "q3"), ("q1", "max"), ("min", None), (None, "max")]:
+            out.append({"type": "manual", "vmin": vmin, "vmax": vmax, "arg": arg})
+        for vc, hr in [("centre", "half"), ("centre", None), ("min", None), ("max", None), ("min", "half")]:
+            out.append({"type": "centered", "vcenter": vc, "half_range": hr, "arg": arg})
+    return out
+
+
+def content_item(item, seed=0, quick=True):
+    d, mode = item
+    a = build_content(d)
+    fin = finite_exact(a)
+    t = Tally()
+    distinct = {v for _, v in fin}
+    only01 = distinct == {0, 1} and len(fin) == a.size
+    for spec in interval_specs(quick) + content_extra_specs():
+        for st in STRETCHES:
+            kw = concrete_kwargs(spec, st, fin)
+            t.extra["content_family_points"] += 1
+            if a.dtype.kind == "b":  # executed and counted, not judged
+                obs, dev, probs = measure(a, mode, kw, fin)
+                t.extra["content_family_bool_points"] += 1
+                if "exc" in obs:
+                    t.extra["content_family_bool_points_raising"] += 1
+                    t.case(key=None, nontrivial=False, outcome=("content-bool", mode, "exc", obs["exc"][:40]))
+                    continue
+                lo, hi = expected_limits(kw, fin)
+                if obs.get("rep") == (0.0, 1.0) and (lo, hi) != (0, 1):
+                    t.extra["content_family_bool_points_with_limits_0_1_where_the_configuration_defines_others"] += 1
+                if probs:
+                    t.extra["content_family_bool_points_breaking_a_clause_counted_not_judged"] += 1
+                t.case(key=None, nontrivial=False, outcome=("content-bool", mode, tuple(sorted({p[0] for p in probs}))))
+                continue
+            judge(t, a, d, mode, interval_label(kw), spec, st, kw, fin)
+            if len(distinct) == 2:
+                t.extra["content_family_points_on_two_valued_data"] += 1
+            if only01:
+                t.extra["content_family_points_on_data_holding_only_0_and_1"] += 1
+                lo, hi = expected_limits(kw, fin)
+                if lo < hi and (lo, hi) != (0, 1):
+                    t.extra["content_family_points_on_0_1_data_with_limits_other_than_0_1"] += 1
     return t
 
 
@@ -2085,6 +2257,7 @@ def run(ctx):
         "both ways the library itself uses the object are explored: limits frozen from data= at construction (show_2d) and limits taken at call time (list_of_arrays_to_rgba)",
         "float ramps span +-1e3; float data near the dtype's maximum (where max-min overflows) is not in the alphabet",
         "+-inf inputs may map to any value; only finite inputs and NaNs are judged",
+        "bool-dtype data: with data= HEAD gives it the limits (0, 1) whatever interval is configured; the property quantifies over int/float dtypes, so bool points are counted (count_content_family_bool_points_...) and not judged",
         "MaskedArray input: on HEAD the mask of the input is dropped and the numbers under it take part in the limits; the property does not speak about either, so both are counted (count_container_points_where_...) and not judged; NaNs must come back masked whether they were outside or under the input's mask",
     )
     data = data_descriptors(quick)
@@ -2136,6 +2309,27 @@ def run(ctx):
                 for name in names + DISPLAY_EXTRA:
                     ditems.append((d, name))
         ctx.pmap(display_item, ditems, chunk=4, label="show_2d", seed=ctx.seed, quick=quick)
+
+    # data CONTENT family: special contents x the whole interval / stretch lattice (+ limits on data values), presets, show_2d
+    cdesc = content_descriptors(quick)
+    cspecs = interval_specs(quick) + content_extra_specs()
+    citems_c = [(d, mode) for d in cdesc for mode in MODES]
+    ctx.say(f"content family: {len(cdesc)} arrays x {len(MODES)} modes x {len(cspecs)} intervals x {len(STRETCHES)} stretches = {len(citems_c) * len(cspecs) * len(STRETCHES)} points")
+    ctx.pmap(content_item, citems_c, chunk=1, label="content", seed=ctx.seed, quick=quick)
+    judged_c = [it for it in citems_c if it[0]["dtype"] != "bool"]
+    if names:
+        ctx.pmap(preset_item, judged_c, chunk=4, label="content-presets", seed=ctx.seed, quick=quick)
+    cditems = []
+    if have_show and names:
+        for d in cdesc:
+            if d["shape"] == [3, 4] and d["dtype"] in ("float64", "uint8") and d["content"] in CONTENT_DISPLAY:
+                for name in names + DISPLAY_EXTRA:
+                    cditems.append((d, name))
+        ctx.pmap(display_item, cditems, chunk=4, label="content-show_2d", seed=ctx.seed, quick=quick)
+    exc_ = ctx.tally.extra
+    if (exc_["content_family_points"] != len(citems_c) * len(cspecs) * len(STRETCHES) or exc_["content_family_points_on_0_1_data_with_limits_other_than_0_1"] < 2000
+            or exc_["content_family_points_on_two_valued_data"] < 20000 or exc_["content_family_bool_points"] < 1000):
+        raise Broken("content family not enumerated completely / degenerate")
 
     # call histories on one object (lazy: every history of `depth` arrays; frozen: X, Y, X; process-wide default instances)
     depth = 2 if quick else 3
@@ -2201,6 +2395,21 @@ def run(ctx):
             "presets": names,
             "resolve_forms": [f[0] for f in resolve_forms([(0, Fraction(0)), (1, Fraction(1))])] if resolve is not None else [],
             "display_norms": (names + DISPLAY_EXTRA) if ditems else [],
+            "content_family": {
+                "value_pairs": {k: [float(x) for x in v] for k, v in CONTENT_PAIRS.items()},
+                "pair_patterns": CONTENT_PATTERNS if not quick else {"alternating": "every pair", "single_high / single_low": CONTENT_SPARSE_QUICK},
+                "other_contents": CONTENT_OTHERS,
+                "dtypes": CONTENT_DTYPES,
+                "members": sorted({f"{d_['dtype']}:{d_['content']}" for d_ in cdesc}),
+                "shapes": sorted({tuple(d_["shape"]) for d_ in cdesc}),
+                "intervals": "every interval configuration of the lattice + limits on data values: manual (min,max), (min,q3), (q1,max), (min,-), (-,max); "
+                             "centred (centre, S/2), (centre, auto), (min, auto), (max, auto), (min, S/2); as float and as int",
+                "stretches": "every stretch of the lattice",
+                "modes": MODES,
+                "presets_and_resolve_forms": "all, on every member",
+                "display": [f"{dt_}:{c_}" for dt_ in ("float64", "uint8") for c_ in CONTENT_DISPLAY],
+                "oracle": "the lattice's clauses, same tolerances; bool-dtype members are executed and counted, not judged",
+            },
             "subclass_family": {
                 "user_intervals": ["full_range_of_dtype (dtype-dependent get_limits)", "inner_range (data-dependent)", "constant"],
                 "use": ["directly: itv(data)", "assigned to norm.interval with library stretches, a subclass of PowerLawStretch and a user-written stretch assigned to norm.stretch"],
@@ -2253,6 +2462,10 @@ def run(ctx):
             "lattice_points": len(items) * len(specs) * len(STRETCHES),
             "inverse_grid_points": 101,
             "size_family_arrays": len(sdesc),
+            "content_family_arrays": len(cdesc),
+            "content_family_interval_configurations": len(cspecs),
+            "content_family_points": len(citems_c) * len(cspecs) * len(STRETCHES),
+            "content_family_display_points": len(cditems),
             "history_depth": depth,
             "history_configurations": len(hcfg),
         },
